@@ -435,4 +435,151 @@ theorem mirror_pos (c : Cursor) (r : RevCursor) (h : Mirror c r) :
     r.getPos = c.buf.length - c.getPos := by
   have := h.2; simp [RevCursor.getPos, Cursor.getPos]; omega
 
+/-! ## positions stay valid along every history: the buffer length never changes -/
+
+theorem Z.extend_len (ws : List Nat) : ∀ z : Z,
+    (Z.extend z ws).2.stk.length + (Z.extend z ws).2.ahd.length = z.stk.length + z.ahd.length := by
+  induction ws with
+  | nil => intro z; rfl
+  | cons w ws ih =>
+    intro z
+    cases z with
+    | mk stk ahd =>
+      cases ahd with
+      | nil => simp [Z.extend]
+      | cons a ah =>
+        simp only [Z.extend]
+        rw [ih]; simp; omega
+
+theorem Z.step_len (wr : Bool) (z : Z) (op : Op) :
+    (Z.step wr z op).2.stk.length + (Z.step wr z op).2.ahd.length = z.stk.length + z.ahd.length := by
+  cases z with
+  | mk stk ahd =>
+    cases op with
+    | readS => cases stk <;> simp [Z.step]; omega
+    | readQ => cases ahd <;> simp [Z.step]; omega
+    | write w => cases wr <;> cases ahd <;> simp [Z.step]; omega
+    | extend ws => cases wr <;> simp [Z.step, Z.extend_len]
+    | spaceLeft => cases wr <;> simp [Z.step]
+    | full => cases wr <;> simp [Z.step]
+    | intoReversed => cases wr <;> simp [Z.step]
+    | _ => simp [Z.step]
+
+/-- no trait method changes the length of the buffer -/
+theorem Cur.step_len (wr : Bool) (s : Cur) (hI : s.Inv) (op : Op) (hop : ∀ ws, op ≠ .bmSet ws)
+    (o : Out) (s' : Cur) (h : Cur.step wr s op = .ok (o, s')) :
+    s'.inner.buf.length = s.inner.buf.length := by
+  by_cases hs : op.Sym = true
+  · obtain ⟨rev, z, rfl⟩ := Cur.exists_ofZ s hI
+    rw [Cur.step_ofZ wr rev z op hs] at h
+    have := (Prod.mk.inj (Except.ok.inj h)).2
+    rw [← this, Cur.inner_len_ofZ, Cur.inner_len_ofZ, Z.step_len]
+  · cases op with
+    | pos => cases s <;> (simp [Cur.step] at h; rw [← h.2])
+    | raw => cases s <;> (simp [Cur.step] at h; rw [← h.2])
+    | seek q =>
+      by_cases hq : q ≤ s.inner.buf.length
+      · obtain ⟨s2, h1, _, h3, _⟩ := Cur.seek_accepted wr s q hq
+        rw [h1] at h
+        have := (Prod.mk.inj (Except.ok.inj h)).2
+        rw [← this, h3]
+      · have h1 := (Cur.seek_refused_iff wr s q).mpr (by omega)
+        rw [h1] at h
+        have := (Prod.mk.inj (Except.ok.inj h)).2
+        rw [← this]
+    | bmSet ws => exact absurd rfl (hop ws)
+    | _ => simp [Op.Sym] at hs
+
+theorem Cur.run_len (wr : Bool) (ops : List Op) : ∀ (s : Cur), s.Inv →
+    (∀ op ∈ ops, ∀ ws, op ≠ .bmSet ws) →
+    ∃ outs s', Cur.run wr s ops = (outs, .ok s') ∧ s'.Inv ∧
+      s'.inner.buf.length = s.inner.buf.length := by
+  induction ops with
+  | nil => intro s hI _; exact ⟨[], s, rfl, hI, rfl⟩
+  | cons op ops ih =>
+    intro s hI h
+    obtain ⟨o, s1, h1, hI1⟩ := Cur.step_inv wr s hI op (h op (by simp))
+    have hl1 := Cur.step_len wr s hI op (h op (by simp)) o s1 h1
+    obtain ⟨outs, s2, h2, hI2, hl2⟩ := ih s1 hI1 (fun o ho => h o (by simp [ho]))
+    exact ⟨o :: outs, s2, by simp [Cur.run, h1, h2], hI2, by rw [hl2, hl1]⟩
+
+/-- **positions reported can be sought back to, at any later time**: a position taken at any
+    point of a history is accepted by `seek` after any further reads / writes / seeks /
+    reversals, and seeking sets exactly that position without touching the buffer -/
+theorem Cur.seek_back_after_history (wr : Bool) (s : Cur) (hI : s.Inv) (p : Nat)
+    (hp : Cur.step wr s .pos = .ok (.num p, s)) (ops : List Op)
+    (hops : ∀ op ∈ ops, ∀ ws, op ≠ .bmSet ws) :
+    ∃ outs s1 s2, Cur.run wr s ops = (outs, .ok s1) ∧
+      Cur.step wr s1 (.seek p) = .ok (.ok, s2) ∧
+      s2.inner.pos = p ∧ s2.inner.buf = s1.inner.buf ∧ s2.Inv := by
+  have hple : p ≤ s.inner.buf.length := by
+    cases s with
+    | fwd c =>
+      simp [Cur.step, Cursor.getPos] at hp
+      have hI' : c.pos ≤ c.buf.length := hI
+      simp [Cur.inner]; omega
+    | rev r =>
+      simp [Cur.step, RevCursor.getPos] at hp
+      have hI' : r.inner.pos ≤ r.inner.buf.length := hI
+      simp [Cur.inner]; omega
+  obtain ⟨outs, s1, h1, _, hl⟩ := Cur.run_len wr ops s hI hops
+  obtain ⟨s2, h2, h3, h4, h5⟩ := Cur.seek_accepted wr s1 p (by omega)
+  exact ⟨outs, s1, s2, h1, h2, h3, h4, h5⟩
+
+/-! ## what reads return: the buffer contents at the position -/
+
+/-- words a `Stack` read sequence returns, next first -/
+def Cur.stackView : Cur → List Nat
+  | .fwd c => (c.buf.take c.pos).reverse
+  | .rev r => r.inner.buf.drop r.inner.pos
+/-- words a `Queue` read sequence returns, next first -/
+def Cur.queueView : Cur → List Nat
+  | .fwd c => c.buf.drop c.pos
+  | .rev r => (r.inner.buf.take r.inner.pos).reverse
+
+theorem Cur.views_ofZ (rev : Bool) (z : Z) :
+    (Cur.ofZ rev z).stackView = z.stk ∧ (Cur.ofZ rev z).queueView = z.ahd := by
+  cases rev <;> simp [Cur.ofZ, Cur.stackView, Cur.queueView, Cursor.ofZ, RevCursor.ofZ, Z.swap]
+
+/-- stack reads return exactly the buffer's words below the position, downwards, then `None` -/
+theorem Cur.readS_view (wr : Bool) (s : Cur) (hI : s.Inv) (m : Nat) :
+    (Cur.run wr s (List.replicate (s.stackView.length + m) Op.readS)).1 =
+      s.stackView.map (fun w => Out.word (some w)) ++ List.replicate m (Out.word none) := by
+  obtain ⟨rev, z, rfl⟩ := Cur.exists_ofZ s hI
+  rw [(Cur.views_ofZ rev z).1, Cur.run_ofZ wr _ rev z (sym_replicate _ _ rfl),
+    ← List.replicate_append_replicate, Z.run_append]
+  have h1 := Z.run_readS wr z.stk [] z.ahd
+  simp only [List.append_nil] at h1
+  cases z with
+  | mk stk ahd => simp only at h1 ⊢; simp [h1, Z.run_readS_nil]
+
+/-- queue reads return exactly the buffer's words from the position upwards, then `None` -/
+theorem Cur.readQ_view (wr : Bool) (s : Cur) (hI : s.Inv) (m : Nat) :
+    (Cur.run wr s (List.replicate (s.queueView.length + m) Op.readQ)).1 =
+      s.queueView.map (fun w => Out.word (some w)) ++ List.replicate m (Out.word none) := by
+  obtain ⟨rev, z, rfl⟩ := Cur.exists_ofZ s hI
+  rw [(Cur.views_ofZ rev z).2, Cur.run_ofZ wr _ rev z (sym_replicate _ _ rfl),
+    ← List.replicate_append_replicate, Z.run_append]
+  have h1 := Z.run_readQ wr z.ahd z.stk []
+  simp only [List.append_nil] at h1
+  cases z with
+  | mk stk ahd => simp only at h1 ⊢; simp [h1, Z.run_readQ_nil]
+
+/-- a write overwrites the cell at the position (so a later seek-back reads the new word) -/
+theorem Cursor.write_overwrites (c c' : Cursor) (w : Nat) (h : c.write w = .ok c') :
+    c'.buf = c.buf.set c.pos w ∧ c'.pos = c.pos + 1 := by
+  unfold Cursor.write at h
+  split at h
+  · cases h; exact ⟨rfl, rfl⟩
+  · cases h
+
+theorem RevCursor.write_overwrites (r r' : RevCursor) (w : Nat) (h : r.write w = .ok r') :
+    r'.inner.buf = r.inner.buf.set (r.inner.pos - 1) w ∧ r'.inner.pos = r.inner.pos - 1 := by
+  unfold RevCursor.write at h
+  split at h
+  · cases h
+  · split at h
+    · cases h; exact ⟨rfl, rfl⟩
+    · cases h
+
 end CV.Backend
